@@ -78,6 +78,41 @@ CHECKS["C04"] = dict(
          "shift_formula / unfold_formula between implementation and model at shifts 0..3.",
     design="§6 C04", technique="Lean 4 proof (THT equivalence of shifting/unfolding, stratified shifting lemma; partial end-to-end) + function-level correspondence")
 
+CHECKS["C16"] = dict(
+    text="Theorems (Lean 4): every documented abbreviation and duality as an equivalence of the specification semantics — in every "
+         "world of every THT interpretation for the head-admissible ones (&false, &initial, &final, <<, >>, ;>, ;>:, <;, <:;, n-fold = "
+         "nested, 0-fold, unary >? >* <? <*), on total traces for the classical dualities (>: , >*, <*) — the substitution theorem "
+         "that lifts an equivalence to every sub-formula position of every context (in_every_context / in_every_body_context), the "
+         "past/future mirror symmetry on reversed traces, and code_level which transports the result to the formulas create_formula "
+         "builds.  Tie: the C03 equation-level correspondence on C[lhs], C[rhs]; search: metamorphic on the implementation (witnesses "
+         "of both sides must agree in every answer set; head versions must give equal answer sets; mirror on reversed traces).",
+    design="§6 C16", technique="Lean 4 proof (semantic equivalences + substitution theorem + mirror symmetry) + metamorphic search on the implementation")
+CHECKS["C17"] = dict(
+    text="Theorems (Lean 4): tsm_prefix — for past-only programs of the core fragment (no final part, no &final, no future "
+         "reference) the first h+1 states of a temporal stable model of horizon h+1 form one of horizon h; C17_prefix / "
+         "C17_prefix_iter — the same for the stable models of the model's accumulated ground programs G(P,h+d) and G(P,h) (through "
+         "C01_core), i.e. for the incremental history.  PARTIAL for programs with past `&tel` body formulas: those are covered by the "
+         "search only (consecutive horizons of one real run: past-only rule programs, the past operator-pair grid incl. n-fold "
+         "variants as observers and constraints).",
+    design="§6 C17", technique="Lean 4 proof (prefix theorem on TSM, lifted to the incremental ground program) + prefix monitor on consecutive horizons of real runs")
+CHECKS["C12"] = dict(
+    text="Theorems (Lean 4): G_congr — the ground program accumulated at horizon h depends on the temporal program only through "
+         "membership of its rules (typed rule fragment incl. future heads and look-ahead constraints); stable_mem_congr / "
+         "tsm_mem_congr — stable models and temporal stable models depend on the rule set; hence permutation, duplication and "
+         "redistribution over files leave the answer sets unchanged (perm_answer_sets, dup_answer_sets, files_same); "
+         "formula_values_order_indep — solutions of the theory's equation system are unique whatever the processing order.  The "
+         "layout of the text (directives, files starting in `base`, aux-atom numbering) is exercised by the metamorphic search on "
+         "the implementation: permuted / duplicated / split into 2, 3, n files, with body formulas, head formulas and dynamic formulas.",
+    design="§6 C12", technique="Lean 4 proof (membership-invariance of the ground program and of stable models) + metamorphic search on the implementation")
+CHECKS["C13"] = dict(
+    text="Theorems (Lean 4): formula_exists (the semantics solves the translation's equation system for every trace and horizon), "
+         "formula_definite / del_definite (any two solutions agree), constraint_split (each formula literal has exactly the value "
+         "the trace gives it).  PARTIAL: that this definitional extension leaves the projected stable models unchanged is not a "
+         "theorem here; it is validated by the metamorphic search on the implementation: P vs P + observer projected to P's atoms as "
+         "multisets (duplicates detected), and P's answer sets = disjoint union of those with `:- &tel{f}` and `:- not &tel{f}`, on "
+         "rule programs incl. shifted constraints, head-formula programs, formula constraints, observers sharing sub-formulas, shipped examples.",
+    design="§6 C13", technique="Lean 4 proof (existence and uniqueness of the translation's formula values; partial) + metamorphic search on the implementation")
+
 NOT_YET = {}
 
 def main():
